@@ -200,6 +200,8 @@ def malformed_value_faults(cfg, rng, limit=24):
         where = rng.choice(['first', 'mid', 'last', 'last'])
         pos = digits0 if where == 'first' else len(v) - 1 if where == 'last' else digits0 + n // 2
         bad = v[:pos] + rng.choice('GgxZ') + v[pos + 1:]
+        if re.fullmatch(r'0x[0-9A-Fa-f]+|\d+', bad):
+            bad = v[:pos] + 'G' + v[pos + 1:]          # '000' -> '0x0' would be a number again (zero-padded decimals exist since the mixed notations)
         variants = [bad]
         if key == 'unique-id':
             variants = [v[:q] + 'G' + v[q + 1:] for q in (2, 9, len(v) - 1)] + [v[:-1], v + '0', v[2:]]
